@@ -11,6 +11,8 @@ DISC = ["w3", "wtheta", "w2broken", "w2vtrace", "any_discontinuous_space_1"]
 BASIS_OK = ["w0", "w1", "w2", "w2h", "w2v", "any_w2", "w3", "wtheta", "w2broken", "w2trace", "wchi"]
 STENCILS = ["cross", "region", "x1d", "y1d", "xory1d", "cross2d"]
 SHAPES = ["gh_quadrature_XYoZ", "gh_quadrature_face", "gh_quadrature_edge", "gh_evaluator"]
+REF_ELEM = ["normals_to_horizontal_faces", "normals_to_vertical_faces", "normals_to_faces",
+            "outward_normals_to_horizontal_faces", "outward_normals_to_vertical_faces", "outward_normals_to_faces"]
 QR_TYPE = {"gh_quadrature_XYoZ": "quadrature_xyoz_type", "gh_quadrature_face": "quadrature_face_type",
            "gh_quadrature_edge": "quadrature_edge_type"}
 
@@ -24,7 +26,7 @@ KERNEL = """module {name}_mod
      type(arg_type), dimension({n}) :: meta_args = (/ &
 {args}
           /)
-{funcs}     integer :: operates_on = cell_column
+{funcs}{mesh}     integer :: operates_on = cell_column
 {shape}   contains
      procedure, nopass :: code => {name}_code
   end type {name}_type
@@ -123,8 +125,16 @@ def gen(n, seed):
                     if sh in QR_TYPE:
                         decl.append(f"  type({QR_TYPE[sh]}) :: qr{i}")
                         acts.append(f"qr{i}")
+        mesh = ""
+        if rnd.random() < 0.3:
+            if rnd.random() < 0.6:
+                mesh += ("     type(mesh_data_type), dimension(1) :: meta_mesh = (/ mesh_data_type(adjacent_face) /)\n")
+            props = rnd.sample(REF_ELEM, rnd.choice([0, 1, 2, 3]))
+            if props:
+                mesh += (f"     type(reference_element_data_type), dimension({len(props)}) :: meta_reference_element = (/ &\n"
+                         "          " + ", &\n          ".join(f"reference_element_data_type({p})" for p in props) + " /)\n")
         lines = [f"          {a}{',' if i < len(args) - 1 else ''} &" for i, a in enumerate(args)]
-        ksrc = KERNEL.format(name=name, n=len(args), args="\n".join(lines), funcs=funcs, shape=shape)
+        ksrc = KERNEL.format(name=name, n=len(args), args="\n".join(lines), funcs=funcs, shape=shape, mesh=mesh)
         alg = ("program alg\n  use constants_mod, only: r_def, i_def, l_def\n  use field_mod, only: field_type\n"
                "  use operator_mod, only: operator_type\n  use quadrature_xyoz_mod, only: quadrature_xyoz_type\n"
                "  use quadrature_face_mod, only: quadrature_face_type\n  use quadrature_edge_mod, only: quadrature_edge_type\n"
@@ -132,4 +142,33 @@ def gen(n, seed):
                f"  use {name}_mod, only: {name}_type\n  implicit none\n" + "\n".join(dict.fromkeys(decl)) +
                f"\n  call invoke( {name}_type({', '.join(acts)}) )\nend program alg\n")
         out.append((name, ksrc, alg))
+    return out
+
+
+def mesh_combos():
+    """every subset (size <= 3) of the reference-element properties, with and without the adjacent_face mesh property,
+    on a kernel with one incremented field"""
+    import itertools
+    out = []
+    c = 0
+    for k in range(0, 4):
+        for props in itertools.combinations(REF_ELEM, k):
+            for adj in (False, True):
+                if not props and not adj:
+                    continue
+                name = f"gm_{c}"
+                c += 1
+                mesh = ""
+                if adj:
+                    mesh += "     type(mesh_data_type), dimension(1) :: meta_mesh = (/ mesh_data_type(adjacent_face) /)\n"
+                if props:
+                    mesh += (f"     type(reference_element_data_type), dimension({len(props)}) :: meta_reference_element = (/ &\n"
+                             "          " + ", &\n          ".join(f"reference_element_data_type({p})" for p in props) + " /)\n")
+                args = ["arg_type(gh_field, gh_real, gh_inc, w1)", "arg_type(gh_field, gh_real, gh_read, w3)"]
+                lines = [f"          {a}{',' if i < len(args) - 1 else ''} &" for i, a in enumerate(args)]
+                ksrc = KERNEL.format(name=name, n=2, args="\n".join(lines), funcs="", shape="", mesh=mesh)
+                alg = ("program alg\n  use field_mod, only: field_type\n"
+                       f"  use {name}_mod, only: {name}_type\n  implicit none\n  type(field_type) :: f1, f2\n"
+                       f"  call invoke( {name}_type(f1, f2) )\nend program alg\n")
+                out.append((name, ksrc, alg))
     return out
